@@ -379,8 +379,17 @@ func toJs(ns []*node) []jval {
 	return out
 }
 
-// seqTokens decodes the idx-th sequence of exactly n tokens.
-func (w *seqWorker) seqTokens(n int, idx int64) []tok {
+// tokAlphabetExt adds the radix macros, a bare integer and four malformed
+// items (a string cut by its line end, lone '#', an invalid UTF-8 byte, a
+// truncated float) to the token alphabet; it is explored for short sequences only.
+var tokAlphabetExt = append(append([]tok{}, tokAlphabet...),
+	tok{"#xF", tAtom}, tok{"#o7", tAtom}, tok{"1", tAtom}, tok{"\"u\n", tAtom}, tok{"#", tAtom}, tok{"\x80", tAtom}, tok{"1.", tAtom})
+
+// seqTokens decodes the idx-th sequence of exactly n tokens of tokAlphabet.
+func (w *seqWorker) seqTokens(n int, idx int64) []tok { return w.seqTokensOver(tokAlphabet, n, idx) }
+
+func (w *seqWorker) seqTokensOver(alpha []tok, n int, idx int64) []tok {
+	tokAlphabet := alpha
 	T := int64(len(tokAlphabet))
 	w.toks = w.toks[:0]
 	for i := 0; i < n; i++ {
